@@ -653,6 +653,14 @@ func (p *projSpec) fileContent(rel string) string {
 	c := p.Files[rel]
 	if strings.HasPrefix(c, linkMark) {
 		dest := filepath.Join(filepath.Dir(rel), strings.TrimPrefix(c, linkMark))
+		if _, ok := p.Files[dest]; !ok {
+			// a link to a directory: everything below it
+			var sb strings.Builder
+			for _, n := range p.filesUnder(dest) {
+				fmt.Fprintf(&sb, "%s\x00%s\x00", strings.TrimPrefix(n, dest), p.Files[n])
+			}
+			return "link to directory " + dest + ": " + sb.String()
+		}
 		return "link to " + dest + ": " + p.Files[dest]
 	}
 	return c
